@@ -672,10 +672,16 @@ func (u *URI) RequestURI() []byte {
 	} else {
 		dst = bytesconv.AppendQuotedPath(u.requestURI[:0], u.Path())
 	}
-	if u.queryArgs.Len() > 0 {
-		dst = append(dst, '?')
-		dst = u.queryArgs.AppendBytes(dst)
+	if u.parsedQueryArgs {
+		// the arguments were looked at (and possibly changed) through QueryArgs(): they are the query,
+		// also when the last one was deleted; queryString may be out of date
+		if u.queryArgs.Len() > 0 {
+			dst = append(dst, '?')
+			dst = u.queryArgs.AppendBytes(dst)
+		}
 	} else if len(u.queryString) > 0 {
+		// queryString is authoritative (Parse, SetQueryString, Update("?...")); queryArgs may hold
+		// arguments of an earlier query string
 		dst = append(dst, '?')
 		dst = append(dst, u.queryString...)
 	}
